@@ -1,54 +1,7 @@
+import DrummerVerif.Model.Launch
 import DrummerVerif.Lemmas.C12
-/-! C08 prototype: the *repaired* launch planner (drafted fix of F-C08) and its validity theorems -/
+/-! C08: validity theorems of the launch planner -/
 namespace Drummer
-
-def regionFilter (cx : Ctx) (sid : Nat) (reg : String) (h : HostSpec) : Bool :=
-  liveFilter cx.tick nodeHostTTL h && basicFilter sid h && decide (h.region = reg)
-
-/-- per-region selection, regions and counts zipped; `none` = ran out of scripted draws -/
-def selectRegions (cx : Ctx) (sid : Nat) : List (String × Nat) → List Nat → Option (List HostSpec × List Nat)
-  | [], draws => some ([], draws)
-  | (reg, cnt) :: rest, draws =>
-    match findSuitable cx.hosts (regionFilter cx sid reg) cnt draws with
-    | none => none
-    | some (hs, draws1) =>
-      match selectRegions cx sid rest draws1 with
-      | none => none
-      | some (hs', draws2) => some (hs ++ hs', draws2)
-
-def launchReqs (d : ShardDef) (sel : List HostSpec) : List Request :=
-  (d.members.zip sel).map fun (m, h) =>
-    ({ type := .create, shardId := d.shardId, members := d.members, replicaIdList := d.members,
-       addressList := (sel.take d.members.length).map (·.address), instantiateReplicaId := m,
-       raftAddress := h.address, appName := d.appName } : Request)
-
-def launchShardF (cx : Ctx) (rg : Regions) (d : ShardDef) (draws : List Nat) : SRes (List Request) :=
-  if rg.count.any (· > d.members.length) then .error "region count exceeds shard size" else
-  if rg.count.sum ≠ d.members.length then .error "regions specification does not match shard size" else
-  match selectRegions cx d.shardId (rg.region.zip rg.count) draws with
-  | none => .panic "exhausted"
-  | some (sel, rest) =>
-    if sel.length < d.members.length then .error "not enough nodehost in suitable regions" else
-    if ¬ (sel.map (·.address)).Nodup then .error "nodehost selected more than once" else
-    .ok (launchReqs d sel) rest
-
-def launchAllF (cx : Ctx) (rg : Regions) : List ShardDef → List Nat → SRes (List Request)
-  | [], draws => .ok [] draws
-  | d :: ds, draws =>
-    match launchShardF cx rg d draws with
-    | .panic w => .panic w
-    | .error w => .error w
-    | .ok reqs rest =>
-      match launchAllF cx rg ds rest with
-      | .ok rs dr => .ok (reqs ++ rs) dr
-      | e => e
-
-def launchF (cx : Ctx) (draws : List Nat) : SRes (List Request) :=
-  match cx.regions with
-  | none => .error "invalid regions specification"
-  | some rg =>
-    if rg.region.length ≠ rg.count.length then .error "invalid regions specification"
-    else launchAllF cx rg cx.defs draws
 
 /-! ### never a crash -/
 
